@@ -35,6 +35,8 @@ def classes_for(kind, flags, h, rng, pts):
     if kind == "s":
         linked = bool(flags.get("lock") or flags.get("secret"))
         return [("scalar_q", sc_raw(Q), True), ("scalar_2^256-1", sc_raw(2 ** 256 - 1), True),
+                # non-canonical aliases of valid-looking values (what a reducing conversion would accept): 1 + q, close tag + q
+                ("scalar_1_plus_q", sc_raw(1 + Q), True), ("scalar_close_tag_plus_q", sc_raw(CLOSE + Q), True),
                 ("close_tag", sc(CLOSE), bool(flags.get("nonce")) or linked),
                 ("zero", sc(0), bool(flags.get("nonzero")) or linked),
                 ("other_valid_scalar", sc(rand_nz(rng)), linked)]
@@ -46,7 +48,8 @@ def classes_for(kind, flags, h, rng, pts):
         n = flags["n"]
         return [("len-1", le8(n - 1), True), ("len+1", le8(n + 1), True), ("len0", le8(0), True), ("len2^32", le8(2 ** 32), True)]
     if kind == "u8":
-        return [("index+1", None, bool(flags.get("index")))]
+        return [("index+1", None, bool(flags.get("index"))), ("index_255", "ff", bool(flags.get("index"))),
+                ("index_254", "fe", bool(flags.get("index")))]
     if kind == "i64":
         return [("i64_min", (2 ** 63).to_bytes(8, "little").hex(), False), ("minus1", "ff" * 8, False)]
     return [("other_bytes", rng.randbytes(WIDTH[kind]).hex(), False)]
@@ -58,6 +61,8 @@ def run(run, h):
     batch = Batch("C15")
     ns = (1, 2, 3, 5) if run.tier == "quick" else (1, 2, 3, 5, 8, 13)
     S, M = samples(h, pts, rng, ns)
+    if "_stopped" in S:
+        run.check_corr("corr.C15.honest_flows_complete_as_in_the_model", False, {"stopped": S.pop("_stopped")})
     T = type_table(ns)
     names = [n for n in T if n in S]
     for ti, name in enumerate(names):
